@@ -1,4 +1,23 @@
 import Tfv.Model
+import Tfv.Generated
+/-!
+# C07 — each concept node carries its inferred type and all canonical supertypes
+Statements about the predicate names are re-derived from /repo's current source on every run
+(`Tfv.Generated` is rewritten by harness/gen_constants.py); the graph theorems are in `C07Graph`.
+-/
 namespace Tfv.C07
-theorem placeholder : True := trivial
+open Tfv
+
+/-- every predicate the query generator tests is one the graph generator emits -/
+theorem C07_queried_are_emitted : ∀ p ∈ Generated.queriedPredicates, p ∈ Generated.emittedPredicates := by decide
+
+/-- the membership predicates the graph generator emits are the ones the published vocabulary declares -/
+theorem C07_membership_in_vocabulary : ∀ p ∈ Generated.membershipPredicates, p ∈ Generated.vocabularyProperties := by decide
+
+/-- … and they are the ones the query generator's pre-filter asks for -/
+theorem C07_membership_queried : ∀ p ∈ Generated.membershipPredicates, p ∈ Generated.queriedPredicates := by decide
+
+/-- the membership predicates are exactly `containsOperation` and `containsType` -/
+theorem C07_membership_names : Generated.membershipPredicates = ["containsOperation", "containsType"] := by decide
+
 end Tfv.C07
